@@ -9,10 +9,10 @@ namespace vf {
 
 enum OpKind {
     O_NOTEON, O_NOTEOFF, O_CC, O_PATCH, O_BEND, O_PANIC, O_RESETSTATE, O_ADVANCE, O_ATNOTE, O_ATCH,
-    O_ARP, O_CHIPS, O_EMU, O_RELOADBANK, O_RESET, O_ALLOCMODE, O_SYSEX, O_SETBLANK, O_PLAYFILE, O_CHIPTYPE, O_NKINDS
+    O_ARP, O_CHIPS, O_EMU, O_RELOADBANK, O_RESET, O_ALLOCMODE, O_SYSEX, O_SETBLANK, O_PLAYFILE, O_CHIPTYPE, O_ADDBANK, O_REMOVEBANK, O_NKINDS
 };
 static const char *const kOpName[O_NKINDS] = {"noteon", "noteoff", "cc", "patch", "bend", "panic", "resetstate", "advance", "atnote", "atch",
-                                              "arp", "chips", "emu", "reloadbank", "reset", "allocmode", "sysex", "setblank", "playfile", "chiptype"};
+                                              "arp", "chips", "emu", "reloadbank", "reset", "allocmode", "sysex", "setblank", "playfile", "chiptype", "addbank", "removebank"};
 struct Op {
     int kind = 0, a = 0, b = 0, c = 0;
     bool operator==(const Op &o) const { return kind == o.kind && a == o.a && b == o.b && c == o.c; }
@@ -138,6 +138,18 @@ struct World {
             break;
         }
         case O_CHIPTYPE: opn2_setChipType(d, p.a); break;
+        case O_ADDBANK: { // create bank (percussive p.c, msb p.a, lsb p.b) through the bank API and make all its entries audible
+            OPN2_Bank b;
+            if(api_get_bank(d, p.c ? 1 : 0, p.a & 127, p.b & 127, &b)) {
+                for(unsigned i = 0; i < 128; i++) { OPN2_Instrument in = make_ins((uint8_t)((i + 7) & 31), (uint8_t)(3 + (p.a & 1) * 2 + (p.b & 1)), 0, p.c ? (uint8_t)(35 + (i % 40)) : 0); opn2_setInstrument(d, &b, i, &in); }
+            }
+            break;
+        }
+        case O_REMOVEBANK: { // remove that bank if it exists
+            OPN2_Bank b;
+            if(api_get_bank(d, p.c ? 1 : 0, p.a & 127, p.b & 127, &b, 0)) last_ret = opn2_removeBank(d, &b);
+            break;
+        }
         }
         drain_tap();
     }
